@@ -19,7 +19,8 @@ def stats_variants(vals):
     if nn:
         lo, hi = min(nn), max(nn)
         wlo, whi = ("", hi + "zz") if isinstance(lo, str) else (lo - 5, hi + 7)
-        out += [("wider", {"min": wlo, "max": whi, "null_count": nulls}),
+        out += [("null_count_only", {"min": None, "max": None, "null_count": nulls}),
+                ("wider", {"min": wlo, "max": whi, "null_count": nulls}),
                 ("min_only", {"min": lo, "max": None, "null_count": nulls}),
                 ("max_only", {"min": None, "max": hi, "null_count": None}),
                 ("new_fields_only", {"min": lo, "max": hi, "null_count": nulls, "new_only": True}),
@@ -107,6 +108,32 @@ def run(tier):
                       "steps": [{"sql": "SET partitions = 1"}, {"sql": f"SELECT {', '.join(pr)} FROM read_parquet('{ppath}')"}]})
         meta[cid] = {"kind": "read", "path": ppath, "proj": pr, "types": [colinfo[c][3] for c in pr],
                      "rows": [[canon_expected(r[colinfo[c][0]], colinfo[c][1], colinfo[c][2]) for c in pr] for r in allrows]}
+    # ---- (b2) projection and pushed filter together: the filter column's position in the projection differs from its position in
+    #      the file, and the columns' value ranges are disjoint, so statistics of the wrong column would prune the wrong groups
+    cols3 = ["a", "b", "c", "d"]
+    base3 = {"a": 0, "b": 100, "c": 300, "d": 100}
+    g3 = [[(1, 101, 301, 101), (2, 102, 302, 109)], [(3, 103, 303, 103), (None, 104, 304, 101)], [(5, None, 305, 105)]]
+    desc3 = {"columns": [{"name": n, "type": "INT32", "optional": True} for n in cols3], "row_groups": [{"pages": [g]} for g in g3]}
+    p3 = os.path.join(DIR, "projfilter.parquet")
+    open(p3, "wb").write(pqwrite.write(desc3)[0])
+    rows3 = [r for g in g3 for r in g]
+    projsets = [["b", "c"], ["c", "b"], ["c"], ["d", "c"], ["a", "c"], ["c", "a", "b"], ["b"], ["d", "b", "a"], ["b", "d"]]
+    for pr in projsets:
+        for fcol in cols3:
+            fi_ = cols3.index(fcol)
+            fvals = [r[fi_] for r in rows3]
+            consts3 = sorted({v for v in fvals if v is not None} | {base3[fcol], base3[fcol] + 50})
+            ranks3 = rank_all(fvals, consts3)
+            preds3 = [(op, c_) for op in ("eq", "gt", "le") for c_ in (consts3 if tier == "thorough" else rng.sample(consts3, 2))] + [("isnull", None)]
+            steps3 = []
+            for op, c_ in preds3:
+                w = f"{fcol} IS NULL" if op == "isnull" else f"{fcol} {dict(eq='=', gt='>', le='<=')[op]} {c_}"
+                steps3.append({"sql": f"SELECT {', '.join(pr)} FROM read_parquet('{p3}') WHERE {w}"})
+            cid = len(cases)
+            cases.append({"id": cid, "rt": {"kind": "threaded", "threads": 2}, "steps": [{"sql": "SET partitions = 2"}] + steps3, "timeout": 60})
+            meta[cid] = {"kind": "filter", "path": p3, "type": "Int32/proj=" + ",".join(pr) + "/filter=" + fcol, "stats": ["exact"], "preds": preds3,
+                         "rows": [[canon_expected(r[cols3.index(c_)], "INT32", None) for c_ in pr] for r in rows3],
+                         "vals": [[] if v is None else [ranks3[v]] for v in fvals], "types": ["Int32"] * len(pr), "rank_of": ranks3}
     # ---- (c) multi-file scans: lists and globs over a generated directory tree
     tree = {"d/f1.parquet": [1, 2], "d/f2.parquet": [3], "d/g1.parquet": [4, 5], "d/sub/f3.parquet": [6], "d/sub/deep/f4.parquet": [7, 8], "d/fx.parquet": []}
     files = []
@@ -121,7 +148,8 @@ def run(tier):
         open(full, "wb").write(pqwrite.write(d2)[0])
         files.append({"path": [[ord(c) for c in seg] for seg in rel_.split("/")], "rows": [[f"i:{v}", f"i:{i}"] for v, i in rows]})
     pats = [["d/*.parquet"], ["d/f?.parquet"], ["d/f[12].parquet"], ["d/**/*.parquet"], ["d/sub/*.parquet"], ["d/**/f[3-4].parquet"],
-            ["d/f1.parquet", "d/g1.parquet"], ["d/f1.parquet", "d/f1.parquet"], ["d/[fg]1.parquet"], ["d/*/*/*.parquet"], ["d/f1.parquet"]]
+            ["d/f1.parquet", "d/g1.parquet"], ["d/f1.parquet", "d/f1.parquet"], ["d/[fg]1.parquet"], ["d/*/*/*.parquet"], ["d/f1.parquet"],
+            ["d/**"], ["d/sub/**"], ["d/sub/deep/**"]]
     for pl in pats:
         RDIR = os.path.relpath(DIR, vlib.VERIF)      # globs are resolved relative to the driver's cwd (/verif)
         arg = ("[" + ", ".join(f"'{os.path.join(RDIR, p)}'" for p in pl) + "]") if len(pl) > 1 else f"'{os.path.join(RDIR, pl[0])}'"
@@ -191,11 +219,12 @@ def run(tier):
         rep.mismatch(sig, {"query": m["query"], "observed": ln["obs"], "expected_logical_rows": m.get("rows"), "stats": m.get("stats")})
     rep.cov["distinct_nontrivial"] = sum(1 for l in lines if l["obs"]["outcome"] == "rows" and l["obs"]["rows"])
     rep.cov["samples"] = [{"query": lmeta[i]["query"], "observed": lines[i]["obs"]["rows"][:4]} for i in (0, len(lines) // 2, len(lines) - 1)]
-    rep.cov["rule"] = ("(a) Parquet files with controlled row-group statistics (exact, absent, wider than exact, min only, max only, new-style "
+    rep.cov["rule"] = ("(a) Parquet files with controlled row-group statistics (exact, absent, wider than exact, null count only, min only, max only, new-style "
                        "fields only, no null count, all-NULL groups) over signed, unsigned (UINT_32 with the high bit set), 64-bit, text and "
                        "double columns, queried with every comparison against constants inside, at and beyond the value range plus IS [NOT] NULL: "
                        "TLC computes which logical rows satisfy the predicate (on order-preserving ranks) and requires exactly those; "
-                       "(b) projections (subsets, reorderings, repeated columns); (c) file lists and glob patterns (*, ?, [..], ranges, **) over "
+                       "(b) projections (subsets, reorderings, repeated columns), and projections combined with a pushed filter on a column whose position in "
+                       "the projection differs from its position in the file (disjoint value ranges per column); (c) file lists and glob patterns (*, ?, [..], ranges, **) over "
                        "a generated directory tree with 1 and 3 partitions: TLC expands the pattern (PathMatch) and requires the bag union of "
                        "the matching files, each once per list entry; non-trivial = non-empty result")
     rep.cov["exhaustive"] = False
